@@ -17,7 +17,8 @@ LEVEL = 'exploration'
 TECHNIQUE = ('exhaustive sweep of all serial days (thorough; strided plus '
              'all boundaries in quick) and of every second of a day, '
              'exhaustive (m, d) carry grid, Hypothesis-sampled shifts and '
-             'pairs, against a datetime-based model of the 1900 date system')
+             'pairs, against a datetime-based model of the 1900 date system'
+             '; every month of the calendar walked forwards and backwards, carry seconds x fractions x days, fractional arguments; order-independence probe')
 LEVEL_TEXT = ('Exploration, exhaustive over the serial-day domain in the '
               'thorough tier (2 958 466 days) and over all 86 400 seconds; '
               'DATE carrying is enumerated over m, d in -40..60 for boundary '
